@@ -55,6 +55,8 @@ pub struct Program {
     /// names (ident indices) of the functions meant to be called by the monitors
     pub entries: Vec<usize>,
     pub features: Vec<&'static str>,
+    /// identifiers that are declared several times (overload sets) or are templates: their emitted names get suffixes by design
+    pub multi: Vec<usize>,
 }
 
 impl Program {
@@ -158,6 +160,7 @@ pub struct Gen<'r> {
     reserved: Option<usize>,
     side_effect_budget: u32,
     features: Vec<&'static str>,
+    multi: Vec<usize>,
     loop_depth: usize,
     /// inside a struct method: member variables of `this`
     this_members: Vec<Var>,
@@ -196,6 +199,7 @@ impl<'r> Gen<'r> {
             reserved: None,
             side_effect_budget: 0,
             features: Vec::new(),
+            multi: Vec::new(),
             loop_depth: 0,
             this_members: Vec::new(),
             current_ret: Ty::Void,
@@ -1421,6 +1425,7 @@ impl<'r> Gen<'r> {
     fn gen_template_function(&mut self, out: &mut String) {
         // template<typename T> T name(T a, T b) { return a <op> b; } - instantiated for the numeric types used at call sites
         let id = self.ident(IdKind::Function);
+        self.multi.push(id);
         let tp = self.ident(IdKind::TemplateParam);
         let a = self.ident(IdKind::Param);
         let b = self.ident(IdKind::Param);
@@ -1444,6 +1449,7 @@ impl<'r> Gen<'r> {
     fn gen_overloads(&mut self, out: &mut String) {
         // two or three overloads of one name over different scalar kinds; call sites pass exactly typed arguments
         let id = self.ident(IdKind::Function);
+        self.multi.push(id);
         let mut kinds = vec![Kind::Int, Kind::UInt, Kind::Float];
         self.rng.shuffle(&mut kinds);
         let n = 2 + self.rng.below(2);
@@ -1512,6 +1518,7 @@ impl<'r> Gen<'r> {
             idents: self.idents,
             entries,
             features: self.features,
+            multi: self.multi,
         }
     }
 }
